@@ -11,6 +11,7 @@ from checks import c01
 ID = "C02"
 SHRINK_BUDGET = 40
 LEVEL = "exploration"
+FP_MODE_MATTERS = True  # values travel through compiled code: see vlib/main.py run_case_guarded
 RULE = (
     "case = generated type expression x value x input forms x placement (object at offset != 0, other live objects, "
     "buffer grown after construction in a third of the cases). The accessor API of the type is generated and built "
